@@ -60,6 +60,11 @@ def run(tier, seed):
     res = ce.run_dfs(fxv, rd, fam, "pairs", maxsched=300 if tier == "quick" else 1500,
                      preempt=2 if tier == "quick" else 3)
     ok = collect(PROP, res, rd, INV, viol, st)
+    pfam = ce.pers_lww_family()
+    if tier == "quick":
+        pfam = [x for x in pfam if "|n|" in x[0]]
+    pres = ce.run_dfs(fxv, rd, pfam, "perslww", chunk=1, maxsched=120 if tier == "quick" else 600, preempt=2, par=8)
+    ok += collect(PROP, pres, rd, INV, viol, st)
     free = []
     n = 6 if tier == "quick" else 40
     for i in range(n):
